@@ -274,6 +274,9 @@ type pkgLegCase struct {
 	Cols []rc.Col     `json:"cols"`
 	Vals []valgen.Val `json:"vals"`
 	Cell []rc.Cell    `json:"cells"`
+	// More: further rows of values for the same columns: the same data package object gets
+	// them assigned and is written again (what a prepared statement executed repeatedly does)
+	More [][]valgen.Val `json:"more_rows_through_the_same_package,omitempty"`
 }
 
 func runPkgLeg(c pkgLegCase) (f *vh.Failure) {
@@ -300,6 +303,8 @@ func runPkgLeg(c pkgLegCase) (f *vh.Failure) {
 		}
 	}
 	isRow := fm.IsRow()
+	var data tds.Package
+	var fields *[]tds.FieldData
 	var wire []byte
 	if textFamily {
 		// a client never sends the text-pointer family: decode direction from reference-encoded rows
@@ -314,8 +319,6 @@ func runPkgLeg(c pkgLegCase) (f *vh.Failure) {
 		wire = e.B
 		vh.Label("package-leg:decode-only")
 	} else {
-		var data tds.Package
-		var fields *[]tds.FieldData
 		if isRow {
 			rp := &tds.RowPackage{}
 			data, fields = rp, &rp.DataFields
@@ -339,6 +342,29 @@ func runPkgLeg(c pkgLegCase) (f *vh.Failure) {
 		wire = out.B
 		vh.Label("package-leg:write-read")
 	}
+	if f := readBack(c, c.Vals, wire, fmtPkg, textFamily, cls); f != nil {
+		return f
+	}
+	for ri, vals := range c.More {
+		for i, v := range vals {
+			(*fields)[i].SetValue(valgen.ToGo(v))
+		}
+		out := flatch.New(nil)
+		if err := data.WriteTo(out); err != nil {
+			return vh.Failf("C04/package-reused-write", "row %d through the same package object: writing %s failed: %v", ri+2, describe(pkgLegCase{Vals: vals}), err)
+		}
+		if f := readBack(c, vals, out.B, fmtPkg, false, cls); f != nil {
+			f.Class = "C04/package-reused"
+			f.Msg = fmt.Sprintf("row %d through the same package object (%s): %s", ri+2, describe(pkgLegCase{Vals: vals}), f.Msg)
+			return f
+		}
+		vh.Label("package-leg:package-object-reused")
+	}
+	return nil
+}
+
+func readBack(c pkgLegCase, vals []valgen.Val, wire []byte, fmtPkg tds.Package, textFamily bool, cls string) *vh.Failure {
+	c.Vals = vals
 	rch := flatch.New(wire[1:])
 	back, err := pkggen.LibDecode(wire[0], fmtPkg, rch)
 	if err != nil || rch.Left() != 0 {
@@ -402,6 +428,19 @@ func TestPackageLeg(t *testing.T) {
 			f.Cols[i].Status &^= rc.ColumnStatus
 		}
 		c := pkgLegCase{Tok: tok, Cols: f.Cols, Vals: vals, Cell: cells}
+		txt := false
+		for _, col := range f.Cols {
+			txt = txt || col.T == rc.TText || col.T == rc.TImage || col.T == rc.TUnitext || col.T == rc.TXML
+		}
+		if !txt {
+			for k := rapid.IntRange(0, 2).Draw(rt, "morerows"); k > 0; k-- {
+				var row []valgen.Val
+				for _, col := range f.Cols {
+					row = append(row, valgen.Val{V: pkggen.CellFor(rt, col).V})
+				}
+				c.More = append(c.More, row)
+			}
+		}
 		if n == 1 && len(vals[0].B) < 40 && len(vals[0].S) < 40 {
 			vh.Sample("package-leg", c)
 		}
